@@ -157,10 +157,14 @@ def validate(ctx, scens, label, chunk=80):
     return accepted, rejected
 
 
+MAX_HANGS = 3
+
+
 def run_harness(path, args, stdin_data=None, timeout=1500):
     """Runs a scenario group in a child process; a scenario whose server hangs ends the child (exit 3) and the rest of
-    the group is run by a new child."""
-    outs, skip = [], 0
+    the group is run by a new child.  After MAX_HANGS confirmed hangs the rest of the group is not run any more: the
+    tree is broken and every further hang costs 20 s."""
+    outs, skip, hangs = [], 0, 0
     for _ in range(40):
         p = vlib.run_bin(path, args, stdin_data=stdin_data, timeout=timeout, env={"C20_SKIP": skip})
         got = parse_jsonl(p.stdout)
@@ -168,6 +172,10 @@ def run_harness(path, args, stdin_data=None, timeout=1500):
         if p.returncode == 0:
             return outs
         if p.returncode == 3 and got:
+            hangs += 1
+            if hangs >= MAX_HANGS:
+                vlib.log("[C20] %s %s: %d scenarios hung, the rest of the group is skipped" % (os.path.basename(os.path.dirname(os.path.dirname(path))), args[0], hangs))
+                return outs
             skip = got[-1]["index"] + 1
             continue
         raise vlib.ToolError("harness %s %s failed rc=%s: %s" % (path, args, p.returncode, p.stderr[-1500:]))
@@ -255,7 +263,8 @@ def run(tier, replay):
             groups[("matrix", rt)] = fut[("matrix", rt)].result()
 
     n_replayed = sum(len(v) for k, v in groups.items() if k[0] == "replay")
-    if n_replayed != len(beh):
+    any_hang = any(o.get("hang") for v in groups.values() for o in v)
+    if n_replayed != len(beh) and not any_hang:
         raise vlib.ToolError("harnesses replayed %d of %d behaviours" % (n_replayed, len(beh)))
 
     total_scen, total_acc, nontrivial = 0, 0, set()
@@ -306,19 +315,21 @@ def run(tier, replay):
                      rejected_by_tlc=sum(1 for o, _ in rej_all if o["group"] == "%s/%s" % (kind, rt)),
                      hangs=sum(1 for o in outs if o.get("hang")), not_forceable=sum(1 for o in outs if o.get("diverged")),
                      timed_waits=sum(1 for o in outs if o["verdict"].get("wait_level", 0) > 0))
-    for o in (groups[("races", "threaded")][:2] + groups[("matrix", "tokio")][1:2] + groups[("replay", "threaded")][:1]):
+    for o in (groups[("races", "threaded")][:1] + groups[("races", "threaded")][2:3] + groups[("matrix", "tokio")][1:2] + groups[("replay", "threaded")][:1]):
         ctx.sample({"scenario": o["scenario"], "rt": o["rt"], "pool": o["nw"], "bind": o["bind"], "verdict": o["verdict"], "log": brief(o["events"])[:900]})
 
     # ---------------------------------------------------------------- 4. self-test of the binding
-    base = copy.deepcopy(groups[("races", "threaded")][1])       # wake-during-dispatch
-    base_t = copy.deepcopy(groups[("races", "tokio")][0])
+    def by_name(kind, rt, name):
+        return next((copy.deepcopy(o) for o in groups[(kind, rt)] if o["scenario"].endswith(name)), None)
+    base = by_name("races", "threaded", "wake-during-dispatch")
+    base_t = by_name("races", "tokio", "cancel-during-dispatch")
     def mutate(o, f):
         o = copy.deepcopy(o)
         o["events"] = f(o["events"])
         return o
     def idx(ev, name, nth=0):
         return [i for i, e in enumerate(ev) if e["ev"] == name][nth]
-    muts = [
+    muts = [] if base is None or base_t is None else [
         ("Flag_Read value flipped", mutate(base, lambda ev: [dict(e, v=1 - e["v"]) if i == idx(ev, "Flag_Read") else e for i, e in enumerate(ev)])),
         ("Dispatch record dropped", mutate(base, lambda ev: [e for i, e in enumerate(ev) if i != idx(ev, "Dispatch")])),
         ("Run_Return record dropped (run did not return)", mutate(base, lambda ev: [e for e in ev if e["ev"] not in ("Run_Return", "Rebind", "Obs_Closed")])),
